@@ -218,3 +218,19 @@ def stepsDown (h : Hist) : Nat → Id → Option Id → Bool
     (downParents h r).any (fun p => stepsDown h n p a)
 
 end Spec.Rev
+
+namespace Spec.Rev
+open Model.Rev
+
+/-- `<branch>@<partial id>` may resolve to `r` only if `r` is on the branch, its id starts with
+    the partial id, and no other revision of the branch (with an id of four or more characters:
+    shorter ids are the separate known finding F13) does -/
+def branchPrefixOk (h : Hist) (branch : String) (p : String) (r : Id) : Bool :=
+  match branchRev h branch with
+  | none => true
+  | some br =>
+    r ∈ ids h && downLineage h br r &&
+    (p == r || ((revOf h r).map (fun x => decide (p ∈ x.labels))).getD false || (r.startsWith p &&
+      (ids h).all (fun y => !(y.startsWith p) || y.length ≤ 3 || !(downLineage h br y) || y == r)))
+
+end Spec.Rev
